@@ -93,6 +93,9 @@ func (env *specEnv) eval(e SExpr) TV {
 		if tv, ok := env.pkgConst(x.Name); ok {
 			return tv
 		}
+		if tv, ok := env.pkgVar(x.Name); ok {
+			return tv
+		}
 		env.fail("unknown identifier %s", x.Name)
 	case *SOld:
 		if env.old == nil {
@@ -278,6 +281,21 @@ func (env *specEnv) pkgConst(name string) (TV, bool) {
 		}
 	}
 	return TV{}, false
+}
+
+// pkgVar: a package-level variable of the contract's package (its current value: heap key X|pkg.name|sort).
+func (env *specEnv) pkgVar(name string) (TV, bool) {
+	e := env.fc.e
+	p := e.pkgByShort(env.pkg)
+	if p == nil || env.st == nil {
+		return TV{}, false
+	}
+	v, ok := p.Types.Scope().Lookup(name).(*types.Var)
+	if !ok {
+		return TV{}, false
+	}
+	srt := e.u.sortOf(v.Type())
+	return TV{T: env.heap("X|" + p.Types.Name() + "." + name + "|" + srt), Sort: srt, Typ: v.Type()}, true
 }
 
 // litString returns the Go string when the spec expression is a string literal or constant.
